@@ -51,7 +51,8 @@ def run(ex, n_inputs=40, seed=0, bound=3):
            "quantified preconditions instantiated on {-1..%d}, %d solver-drawn inputs, seed %d" % (bound + 2, bound + 1, n_inputs, seed)}
     vals = [-1, 0, 1, 2, 3, 4]
     tries = 0
-    while out["evaluations"] < n_inputs and tries < n_inputs * 3:
+    models = []
+    while len(models) < n_inputs and tries < n_inputs * 3:
         tries += 1
         s.push()
         pick = rnd.sample(terms, min(len(terms), rnd.randint(2, 8))) if terms else []
@@ -61,27 +62,29 @@ def run(ex, n_inputs=40, seed=0, bound=3):
             if s.check() != z3.sat:
                 s.pop()
         r = s.check()
-        if r != z3.sat:
-            s.pop()
-            continue
-        m = s.model()
-        # pop everything pushed in this round
+        if r == z3.sat:
+            models.append(s.model())
         while s.num_scopes() > 0:
             s.pop()
+    # all inputs through one compiled harness (each in its own forked child)
+    for start in range(0, len(models), 60):
+        chunk = models[start:start + 60]
         try:
-            res = creplay.replay(ex, m)
+            results = creplay.replay_batch(ex, chunk)
         except Exception as e:
-            res = {"error": str(e)}
-        if res.get("precondition_not_met"):
-            out["pre_not_met"] += 1
-            continue
-        if res.get("unsupported") or res.get("error") or res.get("inconclusive"):
-            out["inconclusive"] += 1
-            out.setdefault("inconclusive_reasons", set()).add(str(res.get("unsupported") or res.get("error") or res.get("inconclusive"))[:200])
-            continue
-        out["evaluations"] += 1
-        if res.get("failed_on_real_code"):
-            out["violations"].append(res)
+            results = [{"error": str(e)}] * len(chunk)
+        for res in results:
+            if res.get("precondition_not_met"):
+                out["pre_not_met"] += 1
+                continue
+            if res.get("unsupported") or res.get("error") or res.get("inconclusive"):
+                out["inconclusive"] += 1
+                out.setdefault("inconclusive_reasons", set()).add(str(res.get("unsupported") or res.get("error") or res.get("inconclusive"))[:200])
+                continue
+            out["evaluations"] += 1
+            if res.get("failed_on_real_code") and not out["violations"]:
+                out["violations"].append(res)
+        if out["violations"]:
             break
     if "inconclusive_reasons" in out:
         out["inconclusive_reasons"] = sorted(out["inconclusive_reasons"])
